@@ -7,7 +7,7 @@ from typing import Dict, List, Optional, Tuple
 from ..closures import provider_classes
 from ..core import AnalysisError, CheckResult, Finding, Repo, norm
 from ..esc import Esc
-from ..modes import DT, closures_for
+from ..modes import DT, closures_for, ext_callables_for
 from ..sib import Signature, diff, signature_of
 from ..values import Resolver
 
@@ -33,6 +33,16 @@ def group_findings(repo: Repo, res: CheckResult, prop: str, ci, meth: str, role:
     for dt in DT:
         per_mode[dt] = closures_for(repo, ci, meth, dt, strict)
     ids = {dt: [id(f.fn) for f in fs] + [id(b.fn) for f in fs for b in f.bindings.values()] for dt, fs in per_mode.items()}
+    # a mode that can hand out a bare builtin (`return tuple`) where its siblings hand out guarded closures skips their guards
+    ext = {dt: ext_callables_for(repo, ci, meth, dt, strict) for dt in DT}
+    if len({tuple(v) for v in ext.values()}) > 1:
+        odd = [dt for dt in DT if ext[dt] != ext["FIRST"]] or ["FIRST"]
+        res.evaluated(f"sib:{ci.name}:{role}:{'strict' if strict else 'lax'}:ext", True)
+        res.add(Finding(prop, "SIB.mode-disagreement", ci.module.rel, f"{ci.name}:{role}:{'strict' if strict else 'lax'}",
+                        f"bare callable handed out in {odd}: {ext}",
+                        f"debug_trail={'/'.join(odd)} can hand out the bare builtin {sorted(set(sum(ext.values(), [])))} as the {ci.name} {role} "
+                        f"while the other modes hand out closures that validate (length, type) before converting: data the other "
+                        "modes reject is accepted in that mode", ci.node.lineno))
     if not any(per_mode.values()):
         return 0
     if ids["DISABLE"] == ids["FIRST"] == ids["ALL"]:
